@@ -319,7 +319,7 @@ def parse_case_output(out, ncases):
 
 # ----------------------------------------------------------------------------- Aspire-level runs with a checkpoint file
 
-def aspire_file_run(cfg, path, fail_at=None, resume=False, budget_s=60, every=1, extra_kwargs=None):
+def aspire_file_run(cfg, path, fail_at=None, resume=False, budget_s=60, every=1, extra_kwargs=None, via_context=False):
     """Aspire.sample_posterior(..., checkpoint_path=path) with the 'fake' flow backend; or, with resume=True,
     Aspire.resume_from_file(path) followed by sample_posterior with the same sampling arguments.
     Returns a Run-like object (result, history, error, target, aspire)."""
@@ -348,9 +348,14 @@ def aspire_file_run(cfg, path, fail_at=None, resume=False, budget_s=60, every=1,
         r.aspire = a
         kw = dict(sampler="minipcn_smc", rng=rng, sampler_kwargs={"n_steps": cfg["mcmc_steps"]}, **sk)
         kw.update(extra_kwargs or {})
-        if not resume:
-            kw.update(checkpoint_path=path, checkpoint_every=every)
-        r.result = a.sample_posterior(N, **kw)
+        if via_context:
+            # the file comes from the auto_checkpoint context, the cadence from the sampling call itself
+            with a.auto_checkpoint(path):
+                r.result = a.sample_posterior(N, checkpoint_every=every, **kw)
+        else:
+            if not resume:
+                kw.update(checkpoint_path=path, checkpoint_every=every)
+            r.result = a.sample_posterior(N, **kw)
         r.history = a.sampler.history
     except Watchdog as e:
         r.error = ("watchdog", str(e))
